@@ -47,6 +47,7 @@ class Flow(object):
         self.events = set()
         self.static = {n: v for n, v in (ir.get("vars") or []) if not lang.is_expr(v)}
         self.retry_declined = 0
+        self.rerun_items = set()  # (task, route) of with-items executions re-armed by a rerun (set by C17)
 
     # ------------------------------------------------------------------ offers
     def _take_due(self, task, route):
@@ -91,6 +92,11 @@ class Flow(object):
             ex["items_n"] = o.get("items_count")
             ex["items_offered"] = set(o["items"])
             ex["items_done"] = {}
+            if (task, route) in self.rerun_items:
+                # a rerun of a with-items execution without a concurrency limit offers the items that are to
+                # run again at once (the others keep their results): these are all it has to wait for
+                self.rerun_items.discard((task, route))
+                ex["items_n"] = len(o["items"])
         self.open[(task, route)] = ex
         return "new"
 
